@@ -9,7 +9,7 @@ shutil.copy(os.path.join(src, "demo.rs"), dst)
 notes = open(os.path.join(src, "notes.md")).read() if os.path.exists(os.path.join(src, "notes.md")) else ""
 shutil.copy(os.path.join(src, "notes.md"), os.path.join(dst, "notes.md")) if notes else None
 conf = ""
-for log in ("/tmp/mut/confirm1.log", "/tmp/mut/confirm2.log", "/tmp/mut/confirm3.log"):
+for log in ("/tmp/mut/confirm1.log", "/tmp/mut/confirm2.log", "/tmp/mut/confirm3.log", "/tmp/mut/confirm4.log", "/tmp/mut/confirm5.log"):
     if os.path.exists(log):
         for line in open(log):
             if line.startswith(src + " "):
